@@ -11,7 +11,7 @@ use deadpool_redis::{Config, Connection, Pool, Runtime};
 use dpmc::explorer::{self, choose_free, note_state, Outcome, Violation};
 use dpmc::report::{Scenario, Tier};
 use dpmc::trace;
-use tokio::io::{AsyncReadExt, AsyncWriteExt};
+use tokio::io::{AsyncReadExt, AsyncWriteExt, BufReader};
 use tokio::net::{UnixListener, UnixStream};
 
 #[derive(Clone, Copy, Debug, PartialEq, Eq, Hash)]
@@ -61,7 +61,7 @@ fn bad(key: &str, msg: String) {
     })
 }
 
-async fn read_line(s: &mut UnixStream) -> Option<String> {
+async fn read_line(s: &mut BufReader<UnixStream>) -> Option<String> {
     let mut v = Vec::new();
     loop {
         let mut b = [0u8; 1];
@@ -78,7 +78,7 @@ async fn read_line(s: &mut UnixStream) -> Option<String> {
     }
 }
 
-async fn read_cmd(s: &mut UnixStream) -> Option<Vec<String>> {
+async fn read_cmd(s: &mut BufReader<UnixStream>) -> Option<Vec<String>> {
     let l = read_line(s).await?;
     let n: usize = l.strip_prefix('*')?.parse().ok()?;
     let mut args = Vec::new();
@@ -97,7 +97,9 @@ fn bulk(s: &str) -> Vec<u8> {
     format!("${}\r\n{}\r\n", s.len(), s).into_bytes()
 }
 
-async fn serve(mut s: UnixStream, id: usize) {
+async fn serve(s: UnixStream, id: usize) {
+    // buffered: one recv per request instead of one per byte
+    let mut s = BufReader::new(s);
     loop {
         let Some(cmd) = read_cmd(&mut s).await else { return };
         let name = cmd[0].to_ascii_uppercase();
